@@ -22,9 +22,8 @@
     DTSTART-seen / both offsets / the recurrence lines / TZNAME);
   * `component_without_dtstart` — document level: a component made of any number of RRULE / RDATE / EXRULE / EXDATE /
     TZOFFSET* / TZNAME / COMMENT lines but no DTSTART is rejected at the latest at its END line, from any state.
-  NOT proved (`wellformed_accepts_partial` below states it): the converse direction as one grammar — "every text
-  of the well-formed grammar is accepted with exactly its component list" — is tied by the correspondence (`ical.parse`,
-  `tzgen.ical.rfc`) on generated and mutated definitions.
+  NOT proved: the converse direction as one grammar — "every text of the well-formed grammar is accepted with exactly its
+  component list" — is tied by the correspondence (`ical.parse`, `tzgen.ical.rfc`) on generated and mutated definitions.
 -/
 import DateutilVerif.Proofs.ICalMalformed
 
@@ -175,6 +174,18 @@ theorem component_state_does_not_leak (lib : RRuleLib) (st : PState) (line value
   ⟨{ st with comptype := some value, founddtstart := false, tzoffsetfrom := none, tzoffsetto := none, rrulelines := [],
               tzname := none },
     by rcases hv with rfl | rfl <;> simp [stepCore, hin, beginComp], rfl, rfl, rfl, rfl, rfl, rfl, rfl, rfl⟩
+
+/-- **a component with recurrence / offset / name lines but no DTSTART is rejected** (document level): from ANY parser state
+    inside a VTIMEZONE, `BEGIN:STANDARD|DAYLIGHT`, then any number of RRULE / RDATE / EXRULE / EXDATE / TZOFFSETFROM / TZOFFSETTO /
+    TZNAME / COMMENT lines in any order with any values, then `END:<the same>` raises (lines given after the split into
+    NAME / parameters / value, `stepP` = `stepCore`; by `parse_rfc_errors_ValueError` what is raised is ValueError) -/
+theorem component_without_dtstart (lib : RRuleLib) (st : PState) (kind : List Char)
+    (hk : kind = lit "STANDARD" ∨ kind = lit "DAYLIGHT") (hin : st.invtz = true)
+    (l0 l1 : List Char) (pm0 pm1 : List (List Char)) (ps : List PLine) (hps : ∀ p ∈ ps, OtherCompProp p.2.1) :
+    ∃ e, ((l0, lit "BEGIN", pm0, kind) :: (ps ++ [(l1, lit "END", pm1, kind)])).foldlM (stepP lib) st = .error e :=
+  ICalRfc.component_without_dtstart lib st kind hk hin l0 l1 pm0 pm1 ps hps
+
+example : OtherCompProp (lit "RRULE") := Or.inl rfl
 
 /-! non-vacuity: whole texts through the TRANSLATED function -/
 def okLib : RRuleLib := fun _ => .ok [1]
